@@ -3,7 +3,7 @@ from multipledispatch import dispatch
 import numpy as np
 import re
 import warnings
-from ..geom import inside_angle_range
+from ..geom import cart, inside_angle_range
 from .. import point_source
 from .. import allocentric
 from ..renderer_common import get_object_gain, is_lfe
@@ -485,7 +485,12 @@ class DirectSpeakersPanner(object):
             else:
                 return np.zeros(self.n_channels)
         else:
-            position = shifted_position.as_cartesian_array()
+            if isinstance(shifted_position, DirectSpeakerPolarPosition):
+                # the point source panner only uses the direction; pan at unit
+                # distance so that a distance of 0 does not result in NaN gains
+                position = cart(shifted_position.azimuth, shifted_position.elevation, 1.0)
+            else:
+                position = shifted_position.as_cartesian_array()
 
             pv = np.zeros(self.n_channels)
             pv[~self.is_lfe] = psp.handle(position)
